@@ -30,7 +30,9 @@ Fixpoint strip {A} (l : list (option A)) : list A :=
           3 filter*Annotations (remaining map)  4 mergeMasterAnnotationsIntoMinion
           5 generateTLSPassthroughHostsConfig  6 GenerateVirtualServerConfig (API-key maps)
           7 generatePolicies (rate-limit group maps)
-          8 GenerateEndpointsKey (the key of an endpoint set: labels in sorted order, labels.Set.String).
+          8 GenerateEndpointsKey (the key of an endpoint set: labels in sorted order, labels.Set.String)
+          9 the Endpoints map of the *Ex the controller builds: a SET of addresses per key, given in [aux]
+            (every address of the selected pods once), whatever the slices / podEndpoints looked like.
    [fixed] selects the model of the tree with the proposed fix applied (kinds 0, 6, 7). *)
 Definition model_items (kind : nat) (fixed : bool) (l : list (string * string))
   (aux : list string) (aux2 : list (string * string)) : list string :=
@@ -47,6 +49,7 @@ Definition model_items (kind : nat) (fixed : bool) (l : list (string * string))
   | 7 => match (if fixed then site_generatePolicies_fixed_out (fun _ : string => false) l
                 else site_generatePolicies_out (fun _ : string => false) l) with
          | LrzMaps m => m | LrzError500 => [] end
+  | 9 => aux
   | 8 => ["default/tea-svc_" ++ String.concat "," (map item (isort fst l)) ++ ":80"]
   | _ => []
   end.
